@@ -29,6 +29,9 @@ class Spec:
 
     def __init__(self, ctx, keys, variant, zero_start):
         k = keys
+        self.tempo_rows_reversed = variant.endswith("-rev")  # the source lists its later tempo point first
+        self.header_tempo_overridden = variant.endswith("-hdr")  # O2Jam: the header tempo differs from a tempo event on measure 0
+        variant = variant.split("-")[0]
         self.keys = k
         self.T0 = 0 if zero_start else ctx.real("T0")
         self.L = [ctx.real("L0"), ctx.real("L1")]
@@ -77,6 +80,8 @@ def src_osu(ctx, sp):
         x = int((512 * c + 256) // sp.keys)
         objs.append("%d,192,%s,128,0,%s:0:0:0:0:" % (x, tk(sp.t(p)), tk(sp.t(e))))
     tps = ["%s,%s,%d,1,0,50,1,0" % (tk(sp.t(sp.tb[i])), tk(sp.L[i]), sp.meter[i]) for i in range(2)]
+    if sp.tempo_rows_reversed:
+        tps.reverse()
     text = c01.HEAD % dict(preview="100", title="Song", version="Hard", keys=sp.keys, samples="", timing="\n".join(tps), objects="\n".join(objs))
     return OsuMap.read(text.split("\n"))
 
@@ -89,6 +94,8 @@ def src_qua(ctx, sp):
     objs += [dict(StartTime=sp.t(p), Lane=c + 1, EndTime=sp.t(e), KeySounds=[]) for c, p, e in sp.holds]
     d["HitObjects"] = objs
     d["TimingPoints"] = [dict(StartTime=sp.t(sp.tb[i]), Bpm=sp.bpm(i)) for i in range(2)]
+    if sp.tempo_rows_reversed:
+        d["TimingPoints"].reverse()
     d["SliderVelocities"] = []
     return c06._read(d)
 
@@ -114,7 +121,7 @@ def src_sm(ctx, sp):
         put(p, c, "2")
         put(e, c, "3")
     measures = [c02.measure_rows(sp.keys, R, pl) for pl in placed]
-    bp = ",".join("%s=%s" % (float(sp.tb[i]), tk(sp.bpm(i))) for i in range(2))
+    bp = ",".join("%s=%s" % (float(sp.tb[i]), tk(sp.bpm(i))) for i in (range(2) if not sp.tempo_rows_reversed else (1, 0)))
     text = c02.HEADER % dict(title="Song", offset=tk(-sp.T0 / 1000) if isinstance(sp.T0, SymNum) else repr(-float(sp.T0) / 1000), sstart="1.5", slen="10", selectable="YES", bpms=bp, stops="#STOPS:;\n")
     text += c02.chart_text(c02.TYPES[sp.keys], "Hard", "Hard", 9, measures)
     return SMMapSet.read(text)
@@ -151,6 +158,12 @@ def src_o2j(ctx, sp):
     pkgs.append((int(sp.tb[1] // 4), 1, [("bpm", sp.bpm(1))]))
     h = dict(c07.HDR)
     h["bpm"] = sp.bpm(0)
+    if sp.header_tempo_overridden:
+        Lh = ctx.real("Lheader")
+        ctx.assume(Lh >= 1)
+        ctx.assume(Lh <= 60000)
+        h["bpm"] = 60000 / Lh
+        pkgs.insert(0, (0, 1, [("bpm", sp.bpm(0)), None]))
     h["title"], h["artist"], h["creator"] = "Song", "art", "me"
     h["package_count"] = [len(pkgs), 0, 0]
     data = ref_ojn.header(h) + b"".join(ref_ojn.package(*p) for p in pkgs)
@@ -177,13 +190,18 @@ def _ms_rows(ctx, label, got_h, got_l, sp, shift, bound_tags=((1, "within-1ms"),
         ctx.check("%s.holds.columns-and-times-%s" % (label, tag), same_multiset(ctx, got_l, want_l, eq=eq), note="%r vs %r" % (got_l[:2], want_l[:2]))
 
 
+def _effective(ctx, tp):
+    """tempo points in file order -> those in force: a point is overridden by a later listed point at the same time"""
+    return [p for i, p in enumerate(tp) if not any(ctx.eq(p[0], q[0]) for q in tp[i + 1:])]
+
+
 def tgt_osu(ctx, sp, out, shift):
     lines = out.write()
     d = ref_osu.parse(ctx, lines)
     c01._well_formed(ctx, "target", lines, d)
     ctx.check("target.key-count", d["keys"] >= sp.keys + shift, note="CircleSize %s for a %d-key chart" % (d["keys"], sp.keys))
     _ms_rows(ctx, "target", [(o["col"], o["t"]) for o in d["hits"]], [(o["col"], o["t"], o["end"]) for o in d["holds"]], sp, shift)
-    tp = [(o["t"], o["bpm"]) for o in d["bpms"]]
+    tp = _effective(ctx, [(o["t"], o["bpm"]) for o in d["bpms"]])
     ctx.check("target.tempo", same_multiset(ctx, tp, [(sp.t(sp.tb[i]), sp.bpm(i)) for i in range(2)]), note="%r" % tp)
     ctx.check("target.title", d["meta"].get("Title") == "Song", note="%r" % d["meta"].get("Title"))
 
@@ -195,7 +213,7 @@ def tgt_qua(ctx, sp, out, shift):
     x = ref_qua.denote(d)
     ctx.check("target.mode", d.get("Mode") == "Keys%d" % (sp.keys + shift) or sp.keys + shift not in (4, 7, 8), note="%r" % d.get("Mode"))
     _ms_rows(ctx, "target", [(o["col"], o["t"]) for o in x["hits"]], [(o["col"], o["t"], o["t"] + o["len"]) for o in x["holds"]], sp, shift)
-    tp = [(o["t"], o["bpm"]) for o in x["bpms"]]
+    tp = _effective(ctx, [(o["t"], o["bpm"]) for o in x["bpms"]])
     eq = lambda a, b: ctx.all(ctx.within(a[0], b[0], 1), ctx.eq(a[1], b[1]))
     ctx.check("target.tempo", same_multiset(ctx, tp, [(sp.t(sp.tb[i]), sp.bpm(i)) for i in range(2)], eq=eq), note="%r" % tp)
     ctx.check("target.title", d.get("Title") == "Song")
@@ -283,6 +301,14 @@ def obligations(tier, seed):
             for keys in (4, 7, 8):
                 if not (keys == 8 and "qua" in (src, tgt) and False):
                     obs.append(_ob(src, tgt, keys, "e"))
+    for tgt in ("osu", "qua", "sm", "bms"):
+        obs.append(_ob("o2j", tgt, 7, "a-hdr"))
+    # sources that list their later tempo point first
+    for src, tgt in PAIRS:
+        if src in ("osu", "qua", "sm") and (not quick or tgt in ("bms", "sm") or (src, tgt) == ("sm", "osu")):
+            obs.append(_ob(src, tgt, 4, "a-rev"))
+            if not quick:
+                obs.append(_ob(src, tgt, 7, "b-rev"))
     # an osu source whose first timing point has 3 beats per measure (formats without measure lengths must not inherit it)
     for tgt in ("sm", "qua"):
         for keys in ((4,) if quick else (4, 7)):
